@@ -14,8 +14,8 @@
    rejected is characterised, and for arrays the refusal is shown to be decided by a read-only walk
    (errors raised after a slab was changed are never argument errors).
 
-   Not modelled (tested by the `errors` harness only): failures of caller-supplied components
-   (comparator, hash-input provider, ledger read) and their ExternalError category. *)
+   Failures of caller-supplied components (comparator, hash-input provider, ledger read) during lookups and
+   their ExternalError category are the subject of props/C18_callbacks.v over theories/Callback.v. *)
 From Coq Require Import String NArith ZArith List Bool.
 From AtreeGen Require Import Consts ErrCat.
 From AtreeModel Require Settings ArrayTree ArrayInv MapElems MapElemsInv Storage.
